@@ -651,7 +651,7 @@ func (ev *Eval) binary(x *EBin) Val {
 	switch x.Op {
 	case "==", "!=":
 		var eq string
-		if l.Addr != nil || r.Addr != nil || isNilVal(l) || isNilVal(r) {
+		if l.Addr != nil || r.Addr != nil || isNilVal(l) || isNilVal(r) || len(l.Alts) > 0 || len(r.Alts) > 0 {
 			eq = ev.ptrEq(l, r)
 		} else {
 			lt, rt := ev.intTerm(l, r), ev.intTerm(r, l)
@@ -765,6 +765,9 @@ func isNilVal(v Val) bool {
 
 func (ev *Eval) ptrEq(l, r Val) string {
 	nilOf := func(v Val) (string, bool) {
+		if len(v.Alts) > 0 {
+			return ev.fe.altsNil(v), true
+		}
 		if v.View != nil {
 			if v.View.NilFlag != "" {
 				return v.View.NilFlag, true
